@@ -11,6 +11,8 @@ ALPHABETS: dict[str, str] = {
     "nasty": "a1 \n\\'\"{}()#$!`\t\ré:",
     "nasty_ff": "a1 \n\\'\"{}()#$!`\t\ré:\f",
     "small": "a \n\\'\"{(#$!\t",
+    # Python-lexicon layout characters (C01/C02/C11): continuation, comments, brackets, quotes, tabs, CR
+    "pylay": "a1 \n\\\t#(,)'\":=\r;",
     # C10: inside f-strings
     "fstr": "a{}:!=r 3.\\'",
     "fstr2": "a{}:!=\n\"\\w,",
